@@ -245,8 +245,24 @@ func (w *Worker) died(timeout bool) error {
 		exit = "killed"
 	}
 	se := w.stderr.String()
-	d := &Died{Exit: exit, Stderr: tail(se, 6000), Frame: PanicFrame(se), Timeout: timeout}
+	d := &Died{Exit: exit, Stderr: crashExcerpt(se), Frame: PanicFrame(se), Timeout: timeout}
 	return d
+}
+
+// crashExcerpt keeps the part of stderr that explains a crash: from the panic / fatal line onwards.
+func crashExcerpt(se string) string {
+	i := strings.Index(se, "panic: ")
+	if j := strings.Index(se, "fatal error: "); j >= 0 && (i < 0 || j < i) {
+		i = j
+	}
+	if i < 0 {
+		return tail(se, 3000)
+	}
+	ex := se[i:]
+	if len(ex) > 3500 {
+		ex = ex[:3500]
+	}
+	return ex
 }
 
 func tail(s string, n int) string {
